@@ -132,8 +132,23 @@ structure St where
   kind : String := ""
   tree : Option STree := none     -- the real tree (model construction + adopted order for kd)
   ok : Bool := false
+  poly : Bool := false            -- metric of the tree: feature distance of the kernel (<x,y>+1)^2 (`khcp`)
 
 def St.P (s : St) (i : Nat) : Point := s.pts.getD i []
+
+/-- squared distance of point `i` to the query in the metric of the current tree -/
+def St.dist (s : St) (q : Point) (i : Nat) : Rat :=
+  if s.poly then featureDist2 (polyKernel 2 1) (s.P i) q else dist2 (s.P i) q
+
+/-- split the annotation of a batched op at the `|` separators -/
+partial def splitBars (toks : List String) : List (List String) :=
+  match toks with
+  | [] => []
+  | _ => toks.takeWhile (· ≠ "|") :: splitBars ((toks.dropWhile (· ≠ "|")).drop 1)
+
+def chunks (d : Nat) (xs : List Int) : Nat → List (List Int)
+  | 0 => []
+  | m + 1 => xs.take d :: chunks d (xs.drop d) m
 
 def splitBar (toks : List String) : List String × List String :=
   (toks.takeWhile (· ≠ "|"), (toks.dropWhile (· ≠ "|")).drop 1)
@@ -154,7 +169,7 @@ def mkTrace (s : St) (q : Point) (ann : List (Rat × Bool)) : Option (TTree × B
   match s.tree with
   | none => none
   | some tr =>
-    let dist := fun i => dist2 (s.P i) q
+    let dist := s.dist q
     if s.kind = "kd" then
       let t := kdTrace q dist tr Box.top
       some (t, tracePairs t == ann, admissible 0 dist t)
@@ -171,11 +186,45 @@ def invWeight (d2 : Rat) : Float :=
   let d := Float.sqrt (ratToFloat d2)
   if d < 1e-100 then 1e100 else 1.0 / d
 
+/-- one query point of a `knn` / `model` op -/
+def pattern (s : St) (op : String) (k w : Nat) (qi : List Int) (annToks : List String) : Option String :=
+  let q : Point := qi.map fun (x : Int) => (x : Rat)
+  let n := s.pts.size
+  let dist := s.dist q
+  match mkTrace s q (parsePairs annToks) with
+  | none => none
+  | some (t, lbok, adm) =>
+    let flags := (if lbok then "" else " LB-MISMATCH") ++ (if adm then "" else " INADMISSIBLE")
+    let tres := (treeKnn t k).filterMap id
+    let lab := fun i => s.labels.getD i 0
+    let tnb := tres.map fun (d, i) => (d, lab i)
+    let bf := bruteForce dist n n
+    let bfk := bf.take k
+    let dk := (bfk.getLast?.map (·.1)).getD 0
+    if op = "knn" then
+      let inner := sortNat ((bfk.filter fun x => decide (x.1 < dk)).map fun x => lab x.2)
+      some ("tree" ++ String.join (tnb.map fun (d, l) => s!" {ratInt d}:{l}")
+         ++ " simple" ++ String.join (bfk.map fun x => s!" {ratInt x.1}")
+         ++ " inner" ++ String.join (inner.map fun l => s!" {l}") ++ flags)
+    else
+      let numClasses := (s.labels.foldl max 0) + 1
+      let bnb := bfk.map fun x => (x.1, lab x.2)
+      let lastLab := lab ((bfk.getLast?.map (·.2)).getD 0)
+      let ambiguous : Bool := match bf[k]? with
+        | some nxt => decide (nxt.1 = dk) && (bf.any fun x => decide (x.1 = dk) && decide (lab x.2 ≠ lastLab))
+        | none => false
+      let (ct, cs) :=
+        if w = 0 then (predictClass ratArith numClasses (fun _ => 1) tnb, predictClass ratArith numClasses (fun _ => 1) bnb)
+        else (predictClass floatArith numClasses invWeight tnb, predictClass floatArith numClasses invWeight bnb)
+      let votes := if w = 0 then " votes" ++ String.join ((voteCounts numClasses tnb).map fun c => s!" {c}") else ""
+      some (s!"class tree={ct} simple=" ++ (if ambiguous then "*" else toString cs) ++ votes ++ flags)
+
 def step (s : St) (line : String) : St × String :=
   let toks := (line.trimAscii.toString.splitOn " ").filter (· ≠ "")
   let (toks, annToks) := splitBar toks
   match toks with
   | [] => (s, "")
+  | ["batch", _] => (s, "ok")     -- batch size of the C++ data set: invisible to the model
   | "data" :: d :: n :: rest =>
     match d.toNat?, n.toNat?, rest.mapM String.toInt? with
     | some d, some n, some xs =>
@@ -198,10 +247,10 @@ def step (s : St) (line : String) : St × String :=
         -- (if they disagree the `tree` line differs; the queries then run on the real tree so that
         -- the model reproduces what the real search does on it)
         let tr := (adopt model real).getD real
-        ({ s with kind := kind, tree := some tr, ok := (adopt model real).isSome },
+        ({ s with kind := kind, poly := false, tree := some tr, ok := (adopt model real).isSome },
           s!"tree {canon true model} nodes={model.nodes} perm={if perm then 1 else 0}")
-      else if kind = "lc" ∨ kind = "khc" then
-        ({ s with kind := kind, tree := some real, ok := true },
+      else if kind = "lc" ∨ kind = "khc" ∨ kind = "khcp" then
+        ({ s with kind := kind, poly := (kind = "khcp"), tree := some real, ok := true },
           s!"tree {canon false real} nodes={real.nodes} perm={if perm then 1 else 0}")
       else (s, "bad-op")
     | _, _, _ => (s, "bad-op")
@@ -220,37 +269,13 @@ def step (s : St) (line : String) : St × String :=
     if op ≠ "knn" ∧ op ≠ "model" then (s, "bad-op") else
     match k.toNat?, w.toNat?, rest.mapM String.toInt? with
     | some k, some w, some qs =>
-      if qs.length ≠ s.dim then (s, "bad-op") else
-      let q : Point := qs.map fun (x : Int) => (x : Rat)
-      let n := s.pts.size
-      let dist := fun i => dist2 (s.P i) q
-      match mkTrace s q (parsePairs annToks) with
-      | none => (s, "bad-op")
-      | some (t, lbok, adm) =>
-        let flags := (if lbok then "" else " LB-MISMATCH") ++ (if adm then "" else " INADMISSIBLE")
-        let tres := (treeKnn t k).filterMap id
-        let lab := fun i => s.labels.getD i 0
-        let tnb := tres.map fun (d, i) => (d, lab i)
-        let bf := bruteForce dist n n
-        let bfk := bf.take k
-        let dk := (bfk.getLast?.map (·.1)).getD 0
-        if op = "knn" then
-          let inner := sortNat ((bfk.filter fun x => decide (x.1 < dk)).map fun x => lab x.2)
-          (s, "tree" ++ String.join (tnb.map fun (d, l) => s!" {ratInt d}:{l}")
-             ++ " simple" ++ String.join (bfk.map fun x => s!" {ratInt x.1}")
-             ++ " inner" ++ String.join (inner.map fun l => s!" {l}") ++ flags)
-        else
-          let numClasses := (s.labels.foldl max 0) + 1
-          let bnb := bfk.map fun x => (x.1, lab x.2)
-          let lastLab := lab ((bfk.getLast?.map (·.2)).getD 0)
-          let ambiguous : Bool := match bf[k]? with
-            | some nxt => decide (nxt.1 = dk) && (bf.any fun x => decide (x.1 = dk) && decide (lab x.2 ≠ lastLab))
-            | none => false
-          let (ct, cs) :=
-            if w = 0 then (predictClass ratArith numClasses (fun _ => 1) tnb, predictClass ratArith numClasses (fun _ => 1) bnb)
-            else (predictClass floatArith numClasses invWeight tnb, predictClass floatArith numClasses invWeight bnb)
-          let votes := if w = 0 then " votes" ++ String.join ((voteCounts numClasses tnb).map fun c => s!" {c}") else ""
-          (s, s!"class tree={ct} simple=" ++ (if ambiguous then "*" else toString cs) ++ votes ++ flags)
+      if s.dim = 0 ∨ qs.length = 0 ∨ qs.length % s.dim ≠ 0 then (s, "bad-op") else
+      -- a batch of m query points, one observation per point, joined by " / "
+      let m := qs.length / s.dim
+      let anns := splitBars annToks
+      let outs := (List.range m).map fun p =>
+        pattern s op k w ((chunks s.dim qs m).getD p []) (anns.getD p [])
+      if outs.any (·.isNone) then (s, "bad-op") else (s, joinWith " / " (outs.filterMap id))
     | _, _, _ => (s, "bad-op")
   | _ => (s, "bad-op")
 
